@@ -139,7 +139,8 @@ def build_doc(progs, forms, mediabox=(0, 0, 612, 792), split=None, numstyle=None
         icc[n] = Ref(nxt)
         nxt += 1
     fn = {"FunctionType": 2, "Domain": [0, 1], "C0": [0, 0, 0], "C1": [1, 0, 0], "N": 1}
-    cs = {"CsI1": [Name("ICCBased"), icc[1]], "CsI3": [Name("ICCBased"), icc[3]], "CsI4": [Name("ICCBased"), icc[4]],
+    # (a three-component space comes first: the default colour space must not depend on what the resources list)
+    cs = {"CsI3": [Name("ICCBased"), icc[3]], "CsI1": [Name("ICCBased"), icc[1]], "CsI4": [Name("ICCBased"), icc[4]],
           "CsBad": [Name("ICCBased"), icc[None]],
           "CsN2": [Name("DeviceN"), [Name("Cyan"), Name("Spot1")], Name("DeviceRGB"), fn],
           "CsN3": [Name("DeviceN"), [Name("A"), Name("B"), Name("C")], Name("DeviceRGB"), fn],
